@@ -3,6 +3,7 @@ import numpy as np
 import core
 from core import OracleResult
 import impl, cfg1d, gens
+from layers.pointwise import layer_pointwise
 from layers.kern import layer_flux_euler, layer_flux_sw, layer_dt
 from layers.fvm1d import layer_rhs1d
 from layers.integ import layer_int
@@ -21,7 +22,7 @@ SSP = ['explicit', 'rk2_heun', 'rk3ssp']
 
 
 def layers(ctx):
-    return [layer_flux_euler, layer_flux_sw, layer_dt, layer_rhs1d, layer_int]
+    return [layer_flux_euler, layer_flux_sw, layer_dt, layer_rhs1d, layer_int, layer_pointwise]
 
 
 def oracle(ctx, seeds=None):
